@@ -28,7 +28,7 @@ func FuzzC37(f *testing.F) {
 		f.Add([]byte(p))
 	}
 	rec := evid.Start(f, "C37", "native fuzzing of the C37 oracle")
-	st := &c37State{rec: rec, knownFS1: rec.Known("FS1"), knownFS2: rec.Known("FS2"), knownFS4: rec.Known("FS4"), knownFS5: rec.Known("FS5")}
+	st := &c37State{rec: rec, knownFS1: rec.Known("FS1"), knownFS2: rec.Known("FS2"), knownFS4: rec.Known("FS4"), knownFS5: rec.Known("FS5"), knownFS42: rec.Known("FS42")}
 	f.Fuzz(func(t *testing.T, data []byte) {
 		if len(data) > 1<<16 {
 			return
